@@ -57,6 +57,7 @@ func checkC11(c *Ctx, r *Report) {
 	checkAztecGeometry(c, r)
 	checkAztecRSBeforeUnstuff(c, r)
 	checkAztecUnstuff(c, r)
+	checkAztecUnstuffWhole(c, r)
 	checkAztecModeMessage(c, r)
 	checkAztecCut(c, r)
 	checkAztecCorners(c, r)
@@ -66,6 +67,7 @@ func checkC11(c *Ctx, r *Report) {
 	checkCallbackNilIn(c, r, "aztec", 1) // the result-point callback hint is tested before it is called (also C06)
 	checkAztecCharset(c, r)
 	checkAztecDecoderState(c, r)
+	checkAztecDetectorState(c, r)
 	checkAztecReadCode(c, r, "M-READCODE")
 	// the six fields' constants (shared with C04)
 	checkGFConstants(c, r)
@@ -972,6 +974,15 @@ func checkAztecDecoderState(c *Ctx, r *Report) {
 	})
 }
 
+// W-DETSTATE: what an Aztec Detector keeps from one Detect call to the next
+func checkAztecDetectorState(c *Ctx, r *Report) {
+	r.Rule("W-DETSTATE", "aztec/detector.Detector keeps no result of a search between Detect calls: outside its constructor the only stores into storage reachable from a Detector are the five parameters every call computes afresh before it reads them (compact and nbCenterLayers in getBullsEyeCorners; shift, nbLayers and nbDataBlocks in extractParameters) - remembered corners or centres would be changed by the mirrored attempt (which swaps two corners in place) and spoil the next call on the same object", 1)
+	fresh := map[string]bool{"compact": true, "nbCenterLayers": true, "shift": true, "nbLayers": true, "nbDataBlocks": true}
+	checkNoInstanceState(c, r, "W-DETSTATE", "aztec/detector", []string{"Detector"}, func(f *ssa.Function, tn, field string, val ssa.Value) bool {
+		return fresh[field] && (f.Name() == "getBullsEyeCorners" || f.Name() == "extractParameters")
+	})
+}
+
 // M-READCODE: every bit-field read stays inside the bit slice
 var frozenReadCode = map[string]string{
 	"(*aztec/decoder.Decoder).getEncodedData#5": "the digit loop reads n fields of 4 bits after the test endIndex-index < 4*n has excluded a short tail; index advances by 4 per field and n counts down",
@@ -1401,7 +1412,7 @@ func globalWrittenAfterInit(c *Ctx, v *types.Var) bool {
 
 // M-AZCHARSET: which character set the bytes of an Aztec symbol are read in
 func checkAztecCharset(c *Ctx, r *Report) {
-	r.Rule("M-AZCHARSET", "in Decoder.getEncodedData the character set whose decoder turns the collected bytes into text (the receiver of NewDecoder in every transform.Append) starts as charmap.ISO8859_1 - directly or through a package variable initialised with it and written nowhere else - which is the interpretation ISO 24778 gives bytes without an ECI, and is changed only to the GetCharset() of the CharacterSetECI looked up from an FLG(n) designator; the bytes collected so far are flushed with the old character set before that change", 1)
+	r.Rule("M-AZCHARSET", "in Decoder.getEncodedData the character set whose decoder turns the collected bytes into text (the receiver of NewDecoder in every transform.Append) starts as charmap.ISO8859_1 - directly or through a package variable initialised with it and written nowhere else - which is the interpretation ISO 24778 gives bytes without an ECI, and is changed only to the GetCharset() of the CharacterSetECI looked up from an FLG(n) designator; the bytes collected so far are flushed with the old character set before that change; the byte buffer is used for nothing but len, appending to itself and as the source of transform.Append, and every return delivers string(<the variable transform.Append extends>): no bytes become text past the character set", 2)
 	fd, p := c.funcDeclOf("aztec/decoder", "Decoder.getEncodedData")
 	key := "aztec/decoder.Decoder.getEncodedData/charset"
 	if fd == nil {
@@ -1497,6 +1508,97 @@ func checkAztecCharset(c *Ctx, r *Report) {
 		bad = fmt.Sprintf("?expected one initialisation and the ECI change of the character set (found %d, %d)", nInit, nECI)
 	}
 	reportFold(r, c, "M-AZCHARSET", key, fd.Pos(), bad)
+	// the collected bytes become text only through the character set's decoder
+	bkey := "aztec/decoder.Decoder.getEncodedData/bytes"
+	r.Analysed(bkey)
+	var buf types.Object
+	bbad := ""
+	for _, a := range apps {
+		if len(a.Args) != 3 {
+			bbad = "?a transform.Append without three arguments"
+			break
+		}
+		o := identObj(p, a.Args[2])
+		if o == nil || (buf != nil && o != buf) {
+			bbad = "?the transform.Append calls do not read one and the same byte buffer variable"
+			break
+		}
+		buf = o
+	}
+	if bbad == "" {
+		var stack []ast.Node
+		ast.Inspect(fd.Body, func(n ast.Node) bool {
+			if n == nil {
+				stack = stack[:len(stack)-1]
+				return false
+			}
+			stack = append(stack, n)
+			id, ok := n.(*ast.Ident)
+			if !ok || bbad != "" || identObj(p, id) != buf {
+				return true
+			}
+			// innermost enclosing call / slice / assignment
+			okUse := false
+			for i := len(stack) - 2; i >= 0 && !okUse; i-- {
+				switch x := stack[i].(type) {
+				case *ast.ParenExpr:
+					continue
+				case *ast.SliceExpr:
+					if ast.Unparen(x.X) == ast.Expr(id) {
+						continue // buf[:0] - judged by what it is assigned to
+					}
+				case *ast.CallExpr:
+					callee := typeutil.Callee(p.TypesInfo, x)
+					if bi, isB := callee.(*types.Builtin); isB {
+						switch bi.Name() {
+						case "len", "cap":
+							okUse = true
+						case "append":
+							if len(x.Args) > 0 && containsNode(x.Args[0], id) {
+								continue // append(buf, ...) - judged by what it is assigned to
+							}
+						}
+					}
+					if isAppend(callee) && len(x.Args) == 3 && ast.Unparen(x.Args[2]) == ast.Expr(id) {
+						okUse = true
+					}
+				case *ast.AssignStmt:
+					// buf = append(buf, ...) / buf = buf[:0] / buf := make(...)
+					if len(x.Lhs) == 1 && identObj(p, x.Lhs[0]) == buf {
+						okUse = true
+					}
+				}
+				break
+			}
+			if !okUse {
+				bbad = fmt.Sprintf("the byte buffer %s is used at %s outside len, append-to-itself and transform.Append: bytes reach the text (or a decision about it) without going through the symbol's character set", id.Name, c.pos(id.Pos()))
+			}
+			return true
+		})
+	}
+	// what is returned as text is string(<the variable the transform.Append calls produce>)
+	if bbad == "" {
+		var res types.Object
+		for _, a := range apps {
+			if o := identObj(p, a.Args[1]); o != nil && (res == nil || res == o) {
+				res = o
+			} else {
+				bbad = "?the transform.Append calls do not extend one and the same text variable"
+			}
+		}
+		ast.Inspect(fd.Body, func(n ast.Node) bool {
+			rs, ok := n.(*ast.ReturnStmt)
+			if !ok || bbad != "" || len(rs.Results) != 2 {
+				return true
+			}
+			conv, isC := ast.Unparen(rs.Results[0]).(*ast.CallExpr)
+			if !isC || len(conv.Args) != 1 || identObj(p, conv.Args[0]) != res {
+				bbad = fmt.Sprintf("the return at %s delivers %s, not string(<the text produced by the character set's decoder>)", c.pos(rs.Pos()), types.ExprString(rs.Results[0]))
+			}
+			return true
+		})
+	}
+	reportFold(r, c, "M-AZCHARSET", bkey, fd.Pos(), bbad)
 }
 
 // T-AZPACK: the mode message is assembled from the right bits of the four sides
@@ -1651,4 +1753,121 @@ func checkAztecIsValid(c *Ctx, r *Report) {
 		}
 	}
 	reportFold(r, c, "M-AZVALID", key, fd.Pos(), bad)
+}
+
+// S-AZUNSTUFF: correctBits as a whole, after its Reed-Solomon call: what the corrected codewords expand to
+func checkAztecUnstuffWhole(c *Ctx, r *Report) {
+	r.Rule("S-AZUNSTUFF", "correctBits, folded as a whole for each codeword size (6, 8, 10, 12 bits; 1, 3, 9 and 23 layers) with readCode answering a script of codewords and the Reed-Solomon decoder accepting them: the bits it returns are, codeword by codeword, size-1 zeros for the codeword 1, size-1 ones for the codeword 2^size - 2 and the size bits most significant first for every other codeword - in a script that holds both stuffed forms next to each other, at the start and at the end - and nothing else; the check codewords contribute nothing", 4)
+	fd, p := c.funcDeclOf("aztec/decoder", "Decoder.correctBits")
+	if fd == nil {
+		r.AnchorLost("S-AZUNSTUFF", "aztec/decoder.Decoder.correctBits", "method not found")
+		return
+	}
+	for _, cfg := range []struct{ L, size int64 }{{1, 6}, {3, 8}, {9, 10}, {23, 12}} {
+		key := fmt.Sprintf("aztec/decoder.Decoder.correctBits whole (%d-bit codewords)", cfg.size)
+		r.Analysed(key)
+		mask := int64(1)<<uint(cfg.size) - 1
+		data := []int64{mask - 1, 1, 2, mask - 2, 0x15 & mask, mask - 1, mask - 1, mask / 2, 1, 1, mask/2 + 1, mask - 1}
+		words := append(append([]int64{}, data...), 5, 6, 7)
+		offset := int64(2)
+		raw := &Val{K: VList}
+		for i := int64(0); i < int64(len(words))*cfg.size+offset; i++ {
+			raw.L = append(raw.L, vbool(false))
+		}
+		var want []bool
+		for _, w := range data {
+			switch w {
+			case 1, mask - 1:
+				for j := int64(0); j < cfg.size-1; j++ {
+					want = append(want, w > 1)
+				}
+			default:
+				for b := cfg.size - 1; b >= 0; b-- {
+					want = append(want, w>>uint(b)&1 == 1)
+				}
+			}
+		}
+		h := &rpf{unroll: 100000, maxSteps: 2000000}
+		h.selHook = func(rr *rpf, sel *ast.SelectorExpr) (*Val, bool) {
+			if id, ok := sel.X.(*ast.Ident); ok {
+				if pn, isPkg := rr.p.TypesInfo.Uses[id].(*types.PkgName); isPkg && strings.HasSuffix(pn.Imported().Path(), "/reedsolomon") {
+					if _, isVar := rr.p.TypesInfo.Uses[sel.Sel].(*types.Var); isVar {
+						return vstr(sel.Sel.Name), true
+					}
+				}
+			}
+			if sel.Sel.Name == "ddata" {
+				return &Val{K: VStruct, Ptr: true, Fields: map[string]*Val{}}, true
+			}
+			return nil, false
+		}
+		h.callHook = func(rr *rpf, call *ast.CallExpr, callee types.Object) (*Val, bool) {
+			fn, ok := callee.(*types.Func)
+			if !ok {
+				return nil, false
+			}
+			switch fn.Name() {
+			case "GetNbLayers":
+				return vint(cfg.L), true
+			case "GetNbDatablocks":
+				return vint(int64(len(data))), true
+			case "IsCompact":
+				return vbool(cfg.L == 1), true
+			case "readCode":
+				st, ln := rr.expr(call.Args[1]), rr.expr(call.Args[2])
+				if st.K != VInt || ln.K != VInt || ln.I != cfg.size || (st.I-offset)%cfg.size != 0 || st.I < offset || (st.I-offset)/cfg.size >= int64(len(words)) {
+					rpfFail("readCode is not applied at the codeword positions (S-AZCUT decides them)")
+				}
+				return vint(words[(st.I-offset)/cfg.size]), true
+			case "NewReedSolomonDecoder":
+				return &Val{K: VStruct, Ptr: true, Fields: map[string]*Val{}}, true
+			case "Decode":
+				if isMethodNamed(callee, "common/reedsolomon", "ReedSolomonDecoder", "Decode") {
+					return &Val{K: VNil}, true
+				}
+			}
+			return errCtorHook(rr, call, callee)
+		}
+		h.env = map[types.Object]*Val{recvObj(p, fd): {K: VStruct, Ptr: true, Fields: map[string]*Val{"ddata": {K: VStruct, Ptr: true, Fields: map[string]*Val{}}}}}
+		res, err := c.rpfCall(fd, p, []*Val{raw}, h)
+		bad := ""
+		switch {
+		case err != nil && strings.Contains(err.Error(), "out of range"):
+			bad = "the expansion indexes outside its storage (" + err.Error() + "): a run-time panic"
+		case err != nil:
+			bad = "?" + err.Error()
+		case len(res) != 2 || res[1].K != VNil || res[0].K != VStruct || res[0].Fields["correctBits"] == nil || res[0].Fields["correctBits"].K != VList:
+			bad = fmt.Sprintf("?the fold does not return corrected bits without error (%v)", res)
+		default:
+			got := res[0].Fields["correctBits"].L
+			if len(got) != len(want) {
+				bad = fmt.Sprintf("the data codewords %v expand to %d bits, ISO 24778 un-stuffing gives %d", data, len(got), len(want))
+				break
+			}
+			for i, g := range got {
+				if g.K != VBool {
+					bad = fmt.Sprintf("?bit %d of the result is not a constant", i)
+					break
+				}
+				if g.B != want[i] {
+					// which codeword
+					pos, cw := 0, 0
+					for k, w := range data {
+						n := int(cfg.size)
+						if w == 1 || w == mask-1 {
+							n--
+						}
+						if i < pos+n {
+							cw = k
+							break
+						}
+						pos += n
+					}
+					bad = fmt.Sprintf("data codewords %v: bit %d of the result (bit %d of what codeword %d = %#x stands for) is %v, ISO 24778 un-stuffing gives %v", data, i, i-pos, cw, data[cw], g.B, want[i])
+					break
+				}
+			}
+		}
+		reportFold(r, c, "S-AZUNSTUFF", key, fd.Pos(), bad)
+	}
 }
